@@ -67,7 +67,7 @@ def check(ctx):
     # ------------------------------------------------------------------ R2 underscore and foreign exclusion
     r2 = ctx.rule('R2', 'underscore-prefixed and foreign symbols are left out', floor=7)
     for fn in ('_create_function', '_create_function_macro', '_create_const'):
-        SF = gsa.summarise(ctx, TR, 'Transformer.' + fn, inline_only=())
+        SF = gsa.summarise(ctx, TR, 'Transformer.' + fn, depth=1, opaque=('_strip_symbol', '_create_return', '_create_parameters', '_create_type_from_base', '_resolve_type_from_ctype'))
         US = r"^%s\.ident\.startswith\('_'\)$" % re.escape(SF.P(1))
         got = gsa.returns_under(SF, gsa.decide_by([(US, True)]))
         other = [e for e in SF.effects if e.kind in ('store', 'call') and e.target != '%s.ident.startswith' % SF.P(1) and gsa.ev3(e.cond, {gsa._unparse(ast.parse("%s.ident.startswith('_')" % SF.P(1), mode='eval').body): True}) is not False]
@@ -100,9 +100,21 @@ def check(ctx):
         and all(c.seq < m_.seq for c in ctor for m_ in meth)
     r2.check(okord, 'constructor, then method, then static pairing', mt.rel, pf.lineno, 'pairing order: %s' % [(e.target, e.when()[:100]) for e in pcalls])
     pp = py.func(TR, 'Transformer.parse')
-    ex = [h for n in P.walk_no_nested(pp) if isinstance(n, ast.Try) for h in n.handlers]
-    r2.check(any(P.src(h.type) == 'TransformerException' and isinstance(h.body[-1], ast.Continue) for h in ex), 'foreign symbols are skipped with a warning', tm.rel, pp.lineno,
-             'parse() no longer skips symbols that raise TransformerException')
+    # gated summary of parse(): when _traverse_one raises TransformerException the symbol is reported and nothing is appended for it
+    PP = gsa.summarise(ctx, TR, 'Transformer.parse', opaque=('_traverse_one', '_append_new_node', 'strip_identifier'))
+    symp_ = PP.P(1)
+    tr1 = [e for e in gsa.find(PP, 'call', r'^self\._traverse_one$')]
+    EXC = [a_ for a_ in PP.atoms() if a_.startswith('@except:') and 'TransformerException' in a_]
+    in_loop = [e for e in PP.effects if tr1 and any(l in e.loops for l in tr1[0].loops)]
+    appends = [e for e in in_loop if (e.kind == 'call' and e.target == 'self._append_new_node') or (e.kind == 'store' and e.target.startswith('self._tag_ns['))]
+    warns = [e for e in in_loop if e.kind == 'call' and e.target.startswith('message.warn') and any(a_ in gsa.atoms(e.cond) for a_ in EXC)]
+    okskip = bool(tr1) and bool(EXC) and bool(appends) and bool(warns) and \
+        all(not gsa.can_hold(e.cond, dict((a_, True) for a_ in EXC if a_ in gsa.atoms(e.cond) or True)) or not any(a_ in gsa.atoms(e.cond) for a_ in EXC) and False for e in appends)
+    # simpler and exact: an append in the symbol loop is impossible once the handler of the traversal ran
+    exc_loop = [a_ for a_ in EXC if any(a_ in gsa.atoms(w.cond) for w in warns)]
+    okskip = bool(tr1) and bool(appends) and bool(warns) and bool(exc_loop) and all(not gsa.can_hold(e.cond, dict((a_, True) for a_ in exc_loop)) for e in appends)
+    r2.check(okskip, 'foreign symbols are skipped with a warning', tm.rel, pp.lineno,
+             'parse() no longer skips symbols that raise TransformerException (appends reachable after the handler: %s)' % [(e.target, e.when()[-120:]) for e in appends][:3])
 
     # ------------------------------------------------------------------ R3 pairing guards
     r3 = ctx.rule('R3', 'method/constructor preconditions each have an unconditional rejecting row', floor=9)
